@@ -81,7 +81,8 @@ def run(ctx):
                 if not neg:
                     r2.bad('err-exit|%s' % step, 'the result of %s is not tested: its error would not fault the resource' % step, loc=fn.loc(b))
                     continue
-                ok, path = fn.must_pass_from([x for (_, x) in neg], rf)
+                # the error world of this call: from the call, never following one of its success edges
+                ok, path = fn.must_pass_from(list(fn.g.get(b, ())), rf, removed_edges=pos)
                 if ok:
                     r2.ok('err-exit|%s' % step, loc=fn.loc(b))
                 else:
@@ -123,7 +124,7 @@ def run(ctx):
             if not pos:
                 r3.bad('safe-state-condition', 'apply_fault does not test decision.apply_safe_state', loc=fn.loc(0))
             else:
-                ok2, path2 = fn.must_pass_from([b for (_, b) in pos], {sb})
+                ok2, path2 = fn.must_pass_from([b for (_, b) in pos], {sb}, removed_edges=neg)
                 # reachable only through the true edge, and every path from the true edge reaches it
                 if guarded(fn, sb, pos) and ok2:
                     # and no other condition: removing the flag's own switch, sb is dominated only by entry
